@@ -89,7 +89,7 @@ func TestConcurrent(t *testing.T) {
 		rng := rand.New(rand.NewSource(seed))
 		reg := [][3]uint64{{1000, 1010, 1020}, {8, 14, 18}, {1, 1, 1}}[rng.Intn(3)]
 		spec := TreeSpec{Seed: seed, Allow: reg[0], Require: reg[1], Final: reg[2], Blocks: 25 + rng.Intn(30), Warmup: 3,
-			MaxLeaves: 4, BadBlocks: 3, OpsPerBlk: 2, ForkProb: 0.22, UniqueWindows: true}
+			MaxLeaves: 4, BadBlocks: 3, OpsPerBlk: 2, ForkProb: 0.22, UniqueWindows: true, RandTwins: 2}
 		tr := spec.Build()
 		tj, nm := tr.Abstract()
 		s := sh[hi%shards]
@@ -97,7 +97,7 @@ func TestConcurrent(t *testing.T) {
 		n := NewNode(tr.W, false)
 		ids := map[types.BlockID]int{}
 		for _, nd := range tr.Nodes {
-			ids[nd.Block.ID()] = nd.ID
+			ids[nd.Block.ID()] = nd.Alias
 		}
 		var mu sync.Mutex
 		var calls []callRec
